@@ -24,11 +24,16 @@ SetT == { <<kv("S", TRUE)>>, <<kv("S", FALSE)>>, <<kv("E", FALSE)>>, <<kv("E", T
               { <<kv("M", TRUE)>>, <<kv("M", FALSE)>>, <<kv("C", TRUE)>>, <<kv("D", FALSE)>>, <<kv("T", TRUE)>>, <<kv("L", FALSE)>>,
                 <<kv("AS", FALSE)>>, <<kv("NE", FALSE)>>, <<kv("G", "none")>>, <<kv("P", TRUE)>>,
                 <<kv("S", TRUE), kv("E", TRUE)>>, <<kv("E", TRUE), kv("S", TRUE)>>, <<kv("W", TRUE), kv("L", TRUE)>>,
-                <<kv("L", TRUE), kv("W", TRUE)>>, <<kv("E", FALSE), kv("S", TRUE), kv("W", TRUE)>> })
+                <<kv("L", TRUE), kv("W", TRUE)>>, <<kv("E", FALSE), kv("S", TRUE), kv("W", TRUE)>>,
+                \* one attribute twice: the entries are applied in order, the second one meets what the first one left
+                <<kv("E", FALSE), kv("E", FALSE)>>, <<kv("W", FALSE), kv("W", TRUE)>> })
 CopyT == { <<>>, <<kv("S", TRUE)>>, <<kv("E", FALSE)>>, <<kv("S", FALSE)>>, <<kv("E", TRUE)>> }
         \cup (IF Level = "small" THEN {} ELSE
               { <<kv("P", TRUE)>>, <<kv("P", FALSE)>>, <<kv("M", FALSE)>>, <<kv("C", FALSE)>>, <<kv("W", FALSE)>>, <<kv("W", TRUE)>>,
-                <<kv("T", TRUE)>>, <<kv("D", FALSE)>>, <<kv("S", TRUE), kv("C", TRUE)>>, <<kv("AS", TRUE)>> })
+                <<kv("T", TRUE)>>, <<kv("D", FALSE)>>, <<kv("S", TRUE), kv("C", TRUE)>>, <<kv("AS", TRUE)>>,
+                \* one attribute twice (the last entry counts - also for "a copy cannot turn a private object public")
+                <<kv("P", TRUE), kv("P", FALSE)>>, <<kv("P", FALSE), kv("P", TRUE)>>, <<kv("S", TRUE), kv("S", TRUE)>>,
+                <<kv("D", FALSE), kv("D", TRUE)>> })
 
 Ids    == 1 .. MaxObj
 NextId == Cardinality(DOMAIN obj \cup gone) + 1
